@@ -2,7 +2,8 @@
    survival of the daemon under the generated facts, independence of replies from the daemon's history,
    and transparency of a LOAD_EXEC session with respect to the standalone observation. *)
 From Coq Require Import NArith ZArith List Bool Lia.
-From NV Require Import Base.Bytes gen.VmdConsts gen.VmdFacts Proto.Vmd.
+
+From NV Require Import Base.Bytes gen.VmdConsts gen.VmdFacts gen.SigpipeSites Proto.Vmd.
 Import ListNotations.
 Local Open Scope N_scope.
 
@@ -166,8 +167,8 @@ Definition load_exec_frames (c : cfg) (O : vm_oracle) (h : hdr) (rest : list byt
       | Some msg => [error_frame (txt_verify_failed ++ msg); exit_frame 1]
       | None => match o_run O blob with
                 | Crashed chunks => output_frames chunks
-                | Ran chunks None => output_frames chunks ++ [exit_frame 0]
-                | Ran chunks (Some e) => output_frames chunks ++ [error_frame e; exit_frame 1]
+                | Ran chunks None st _ => output_frames chunks ++ [exit_frame (if c_exit_from_main c then st mod 256 else 0)]
+                | Ran chunks (Some e) _ _ => output_frames chunks ++ [error_frame e; exit_frame 1]
                 end
       end
   end.
@@ -189,13 +190,13 @@ Proof.
   - destruct (send_none c w (error_frame (txt_verify_failed ++ msg)) H) as (A & B).
     destruct (send_none c _ (exit_frame 1) A) as ((A' & _) & B'). split; [exact A'|].
     rewrite B', B. cbn [map concat]. rewrite app_nil_r, <- app_assoc. reflexivity.
-  - destruct (o_run O blob) as [chunks [e|]|chunks].
+  - destruct (o_run O blob) as [chunks [e|] st ffi|chunks].
     + destruct (send_chunks_none c chunks w H) as (A & B).
       destruct (send_none c _ (error_frame e) A) as (A1 & B1).
       destruct (send_none c _ (exit_frame 1) A1) as ((A2 & _) & B2). split; [exact A2|].
       rewrite B2, B1, B, concat_map_app. cbn [map concat]. rewrite app_nil_r, <- !app_assoc. reflexivity.
     + destruct (send_chunks_none c chunks w H) as (A & B).
-      destruct (send_none c _ (exit_frame 0) A) as ((A2 & _) & B2). split; [exact A2|].
+      destruct (send_none c _ (exit_frame (if c_exit_from_main c then st mod 256 else 0)) A) as ((A2 & _) & B2). split; [exact A2|].
       rewrite B2, B, concat_map_app. cbn [map concat]. rewrite app_nil_r, <- !app_assoc. reflexivity.
     + destruct (send_chunks_none c chunks w H) as ((A & _) & B). unfold kill. cbn [w_left w_sent]. auto.
 Qed.
@@ -220,14 +221,14 @@ Proof.
   intros Ha. unfold client_thread, reply_frames. rewrite Ha. cbn [negb].
   assert (H0 : wr_none (w_init None)) by (split; reflexivity).
   fold (w_init None).
-  assert (S1 : forall f, w_sent (send c (w_init None) f) = concat (map encode_frame [f])).
-  { intros f. destruct (send_none c _ f H0) as (_ & B). rewrite B. cbn [map concat w_init w_sent]. rewrite app_nil_r. reflexivity. }
+  assert (S1 : forall f, w_sent (send (now c d) (w_init None) f) = concat (map encode_frame [f])).
+  { intros f. destruct (send_none (now c d) _ f H0) as (_ & B). rewrite B. cbn [map concat w_init w_sent]. rewrite app_nil_r. reflexivity. }
   destruct (recv_header input) as [| | |h rest]; try reflexivity.
   destruct (h_type h =? VMD_MSG_PING); [cbn [fst]; apply S1|].
   destruct (h_type h =? VMD_MSG_SHUTDOWN); [cbn [fst]; apply S1|].
   destruct (h_type h =? VMD_MSG_STATUS); [cbn [fst active]; apply S1|].
   destruct (h_type h =? VMD_MSG_LOAD_EXEC); [|cbn [fst]; apply S1].
-  cbn [fst]. destruct (load_exec_none c O h rest _ H0) as (_ & B). rewrite B. reflexivity.
+  cbn [fst]. destruct (load_exec_none (now c d) O h rest _ H0) as (_ & B). rewrite B. reflexivity.
 Qed.
 
 (* Closed (no byte written) exactly when the header is refused; otherwise at least one frame, except for a module
@@ -320,7 +321,7 @@ Proof.
   destruct (negb (o_deser O blob)); [apply send_cut; exact H|].
   destruct (if c_verify_first c then o_verify O blob else None).
   - apply send_cut, send_cut, H.
-  - destruct (o_run O blob) as [chunks [e|]|chunks].
+  - destruct (o_run O blob) as [chunks [e|] st ffi|chunks].
     + apply send_cut, send_cut, send_chunks_cut, H.
     + apply send_cut, send_chunks_cut, H.
     + apply kill_cut, send_chunks_cut, H.
@@ -347,39 +348,65 @@ Qed.
 (* ------------------------------------------------------------------ cleanup and survival *)
 Definition header_refused (input : list byte) : Prop := forall h rest, recv_header input <> ROk h rest.
 
+Definition fin_state (d : daemon) (w : wr) (sd sg : bool) : daemon :=
+  if w_killed w then {| alive := false; active := active d + 1; shutdown := sd; sigign := sg |}
+  else {| alive := true; active := active d + 1 - 1; shutdown := sd; sigign := sg |}.
+
+(* the shape of client_thread's result: some final write state, shutdown flag and disposition *)
+Lemma client_thread_shape c O input wb d : alive d = true ->
+  exists w sd sg, client_thread c O input wb d = (w_sent w, fin_state d w sd sg) /\
+    (sg = sigign d \/ (exists v, c_ffi_sets c = Some v /\ sg = v)) /\
+    ((forall data w', w_killed w' = false -> w_killed (write (now c d) w' data) = false) ->
+     (forall b ch, o_deser O b = true -> (if c_verify_first c then o_verify O b else None) = None -> o_run O b <> Crashed ch) ->
+     w_killed w = false).
+Proof.
+  intros Ha. unfold client_thread. rewrite Ha. cbn [negb].
+  set (w0 := {| w_sent := []; w_left := wb; w_killed := false |}).
+  assert (SU : forall f w', (forall data w'', w_killed w'' = false -> w_killed (write (now c d) w'' data) = false) ->
+                 w_killed w' = false -> w_killed (send (now c d) w' f) = false).
+  { intros f w' HW K. unfold send. destruct (w_left w') as [[|k]|]; rewrite ?K; repeat apply HW; auto. }
+  assert (SC : forall chunks w', (forall data w'', w_killed w'' = false -> w_killed (write (now c d) w'' data) = false) ->
+                 w_killed w' = false -> w_killed (send_chunks (now c d) w' chunks) = false).
+  { induction chunks as [|ch r IH]; intros w' HW K; cbn [send_chunks]; [exact K|].
+    apply IH; [exact HW|]. destruct ch; [exact K|apply SU; auto]. }
+  destruct (recv_header input) as [| | |h rest].
+  1-3: (exists w0, (shutdown d), (sigign d); split; [reflexivity|split; [left; reflexivity|intros _ _; reflexivity]]).
+  destruct (h_type h =? VMD_MSG_PING).
+  { eexists _, _, _. split; [reflexivity|split; [left; reflexivity|intros HW _; apply SU; auto]]. }
+  destruct (h_type h =? VMD_MSG_SHUTDOWN).
+  { eexists _, _, _. split; [reflexivity|split; [left; reflexivity|intros HW _; apply SU; auto]]. }
+  destruct (h_type h =? VMD_MSG_STATUS).
+  { eexists _, _, _. split; [reflexivity|split; [left; reflexivity|intros HW _; apply SU; auto]]. }
+  destruct (h_type h =? VMD_MSG_LOAD_EXEC).
+  2:{ eexists _, _, _. split; [reflexivity|split; [left; reflexivity|intros HW _; apply SU; auto]]. }
+  eexists _, _, _. split; [reflexivity|]. split.
+  - destruct (used_cop (now c d) O h rest); [|left; reflexivity].
+    cbn [now c_ffi_sets]. destruct (c_ffi_sets c) as [v|]; [right; exists v; auto|left; reflexivity].
+  - intros HW HS. unfold load_exec.
+    destruct ((h_len h =? 0) || (VMD_MAX_PAYLOAD <? h_len h)); [apply SU; auto|].
+    destruct (take (h_len h) rest) as [[blob r]|]; [|apply SU; auto].
+    destruct (o_deser O blob) eqn:D; cbn [negb]; [|apply SU; auto].
+    cbn [now c_verify_first c_exit_from_main].
+    destruct (if c_verify_first c then o_verify O blob else None) as [msg|] eqn:V.
+    + repeat apply SU; auto.
+    + destruct (o_run O blob) as [chunks [e|] st ffi|chunks] eqn:R.
+      * repeat apply SU; auto.
+      * repeat apply SU; auto.
+      * exfalso. exact (HS blob chunks D V R).
+Qed.
+
 Lemma client_thread_cleanup c O input wb d :
   alive d = true -> alive (snd (client_thread c O input wb d)) = true ->
   active (snd (client_thread c O input wb d)) = active d.
 Proof.
-  intros Ha. unfold client_thread. rewrite Ha. cbn [negb].
-  set (w0 := {| w_sent := []; w_left := wb; w_killed := false |}).
-  assert (F : forall w sd,
-    alive (snd (w_sent w, if w_killed w then {| alive := false; active := (active d + 1)%Z; shutdown := sd |}
-                          else {| alive := true; active := (active d + 1 - 1)%Z; shutdown := sd |})) = true ->
-    active (snd (w_sent w, if w_killed w then {| alive := false; active := (active d + 1)%Z; shutdown := sd |}
-                          else {| alive := true; active := (active d + 1 - 1)%Z; shutdown := sd |})) = active d).
-  { intros w sd. destruct (w_killed w); cbn; [discriminate|intros _; lia]. }
-  destruct (recv_header input) as [| | |h rest]; cbn [active]; try apply F.
-  destruct (h_type h =? VMD_MSG_PING); [apply F|].
-  destruct (h_type h =? VMD_MSG_SHUTDOWN); [apply F|].
-  destruct (h_type h =? VMD_MSG_STATUS); [apply F|].
-  destruct (h_type h =? VMD_MSG_LOAD_EXEC); apply F.
+  intros Ha. destruct (client_thread_shape c O input wb d Ha) as (w & sd & sg & E & _). rewrite E. cbn [snd].
+  unfold fin_state. destruct (w_killed w); cbn; [discriminate|intros _; lia].
 Qed.
 
 Lemma write_unkilled c w data : c_ignores_sigpipe c = true -> w_killed w = false -> w_killed (write c w data) = false.
 Proof.
   intros Hc Hk. unfold write. rewrite Hk. destruct data; [exact Hk|].
   destruct (w_left w) as [[|k]|]; [rewrite Hc; exact Hk|reflexivity|reflexivity].
-Qed.
-Lemma send_unkilled c w f : c_ignores_sigpipe c = true -> w_killed w = false -> w_killed (send c w f) = false.
-Proof.
-  intros Hc Hk. unfold send. destruct (w_left w) as [[|k]|]; rewrite ?Hk; repeat apply write_unkilled; auto.
-Qed.
-Lemma send_chunks_unkilled c chunks : forall w, c_ignores_sigpipe c = true -> w_killed w = false ->
-  w_killed (send_chunks c w chunks) = false.
-Proof.
-  induction chunks as [|ch r IH]; intros w Hc Hk; cbn [send_chunks]; [exact Hk|].
-  apply IH; [exact Hc|]. destruct ch; [exact Hk|apply send_unkilled; auto].
 Qed.
 
 (* no accepted-and-verified module makes the VM fault (the statement of C13's vm_safe, here a hypothesis on the oracle) *)
@@ -391,66 +418,52 @@ Definition oracle_total (O : vm_oracle) : Prop := forall b ch, o_run O b <> Cras
 Definition exec_guard (c : cfg) (O : vm_oracle) : Prop :=
   (c_verify_first c = true /\ oracle_safe O) \/ oracle_total O.
 
-Lemma load_exec_unkilled c O h rest w :
-  c_ignores_sigpipe c = true -> exec_guard c O -> w_killed w = false -> w_killed (load_exec c O h rest w) = false.
-Proof.
-  intros Hc G Hk. unfold load_exec.
-  destruct ((h_len h =? 0) || (VMD_MAX_PAYLOAD <? h_len h)); [apply send_unkilled; auto|].
-  destruct (take (h_len h) rest) as [[blob r]|]; [|apply send_unkilled; auto].
-  destruct (o_deser O blob) eqn:D; cbn [negb]; [|apply send_unkilled; auto].
-  destruct (if c_verify_first c then o_verify O blob else None) as [msg|] eqn:V.
-  - repeat apply send_unkilled; auto.
-  - destruct (o_run O blob) as [chunks [e|]|chunks] eqn:R.
-    + repeat apply send_unkilled; auto. apply send_chunks_unkilled; auto.
-    + repeat apply send_unkilled; auto. apply send_chunks_unkilled; auto.
-    + exfalso. destruct G as [(Vf & S)|T].
-      * rewrite Vf in V. exact (S blob chunks D V R).
-      * exact (T blob chunks R).
-Qed.
+(* no session leaves SIGPIPE at anything but SIG_IGN *)
+Definition keeps_sigign (c : cfg) : Prop := c_ffi_sets c <> Some false.
 
 Lemma client_thread_survives c O input wb d :
-  c_ignores_sigpipe c = true -> exec_guard c O -> alive d = true ->
-  alive (snd (client_thread c O input wb d)) = true.
+  keeps_sigign c -> exec_guard c O -> alive d = true -> sigign d = true ->
+  alive (snd (client_thread c O input wb d)) = true /\ sigign (snd (client_thread c O input wb d)) = true.
 Proof.
-  intros Hc G Ha. unfold client_thread. rewrite Ha. cbn [negb].
-  set (w0 := {| w_sent := []; w_left := wb; w_killed := false |}).
-  assert (K0 : w_killed w0 = false) by reflexivity.
-  assert (F : forall w sd, w_killed w = false ->
-    alive (snd (w_sent w, if w_killed w then {| alive := false; active := (active d + 1)%Z; shutdown := sd |}
-                          else {| alive := true; active := (active d + 1 - 1)%Z; shutdown := sd |})) = true).
-  { intros w sd E. rewrite E. reflexivity. }
-  destruct (recv_header input) as [| | |h rest]; cbn [active]; try (apply F; exact K0).
-  destruct (h_type h =? VMD_MSG_PING); [apply F, send_unkilled; auto|].
-  destruct (h_type h =? VMD_MSG_SHUTDOWN); [apply F, send_unkilled; auto|].
-  destruct (h_type h =? VMD_MSG_STATUS); [apply F, send_unkilled; auto|].
-  destruct (h_type h =? VMD_MSG_LOAD_EXEC); [apply F, load_exec_unkilled; auto|apply F, send_unkilled; auto].
+  intros Hk G Ha Hs. destruct (client_thread_shape c O input wb d Ha) as (w & sd & sg & E & SG & KW). rewrite E. cbn [snd].
+  assert (K : w_killed w = false).
+  { apply KW.
+    - intros data w' K'. apply write_unkilled; [exact Hs|exact K'].
+    - intros b ch D V R. destruct G as [(Vf & S)|T].
+      + rewrite Vf in V. exact (S b ch D V R).
+      + exact (T b ch R). }
+  unfold fin_state. rewrite K. cbn. split; [reflexivity|].
+  destruct SG as [->|(v & Ev & ->)]; [exact Hs|].
+  destruct v; [reflexivity|]. exfalso. exact (Hk Ev).
 Qed.
 
-Lemma serve_survives c O : c_ignores_sigpipe c = true -> exec_guard c O ->
-  forall ss d, alive d = true -> alive (serve c O d ss) = true /\ active (serve c O d ss) = active d.
+Lemma serve_survives c O : keeps_sigign c -> exec_guard c O ->
+  forall ss d, alive d = true -> sigign d = true ->
+  alive (serve c O d ss) = true /\ active (serve c O d ss) = active d /\ sigign (serve c O d ss) = true.
 Proof.
-  intros Hc G. induction ss as [|s ss IH]; intros d Ha; [split; [exact Ha|reflexivity]|].
+  intros Hk G. induction ss as [|s ss IH]; intros d Ha Hs; [split; [exact Ha|split; [reflexivity|exact Hs]]|].
   unfold serve. cbn [fold_left]. fold (serve c O (snd (client_thread c O (fst s) (snd s) d)) ss).
-  pose proof (client_thread_survives c O (fst s) (snd s) d Hc G Ha) as A1.
+  destruct (client_thread_survives c O (fst s) (snd s) d Hk G Ha Hs) as (A1 & S1).
   pose proof (client_thread_cleanup c O (fst s) (snd s) d Ha A1) as C1.
-  destruct (IH _ A1) as (A2 & C2). split; [exact A2|]. rewrite C2. exact C1.
+  destruct (IH _ A1 S1) as (A2 & C2 & S2). split; [exact A2|]. split; [rewrite C2; exact C1|exact S2].
 Qed.
 
-(* daemon_survives, for any configuration that ignores SIGPIPE and verifies before executing *)
+(* daemon_survives, for any configuration that starts with SIGPIPE ignored, in which no session resets the disposition, and
+   that verifies before executing *)
 Lemma daemon_survives_generic c O ss :
-  c_ignores_sigpipe c = true -> c_verify_first c = true -> oracle_safe O ->
-  alive (serve c O d0 ss) = true /\ active (serve c O d0 ss) = 0%Z.
+  c_ignores_sigpipe c = true -> keeps_sigign c -> c_verify_first c = true -> oracle_safe O ->
+  alive (serve c O (boot c) ss) = true /\ active (serve c O (boot c) ss) = 0%Z /\ sigign (serve c O (boot c) ss) = true.
 Proof.
-  intros Hc Hv S. apply (serve_survives c O Hc (or_introl (conj Hv S)) ss d0). reflexivity.
+  intros Hc Hk Hv S. apply (serve_survives c O Hk (or_introl (conj Hv S)) ss (boot c)); [reflexivity|exact Hc].
 Qed.
 
 (* without verification the daemon still survives every session list in which no submitted module faults:
    all the malformed / truncated / abandoned behaviours fall under this *)
 Lemma daemon_survives_benign c O ss :
-  c_ignores_sigpipe c = true -> oracle_total O ->
-  alive (serve c O d0 ss) = true /\ active (serve c O d0 ss) = 0%Z.
+  c_ignores_sigpipe c = true -> keeps_sigign c -> oracle_total O ->
+  alive (serve c O (boot c) ss) = true /\ active (serve c O (boot c) ss) = 0%Z /\ sigign (serve c O (boot c) ss) = true.
 Proof.
-  intros Hc T. apply (serve_survives c O Hc (or_intror T) ss d0). reflexivity.
+  intros Hc Hk T. apply (serve_survives c O Hk (or_intror T) ss (boot c)); [reflexivity|exact Hc].
 Qed.
 
 (* the refutation: a handler that executes without verifying is killed by one session *)
@@ -461,36 +474,87 @@ Definition hostile_session : session := (load_exec_request [0], None).
 Lemma hostile_oracle_safe : oracle_safe hostile_oracle.
 Proof. intros b ch _ V. discriminate. Qed.
 
-Lemma unverified_daemon_dies c : c_verify_first c = false ->
-  alive (serve c hostile_oracle d0 [hostile_session]) = false.
-Proof. destruct c as [i v]. cbn [c_verify_first]. intros ->. destruct i; vm_compute; reflexivity. Qed.
+Lemma unverified_daemon_dies c : c_ignores_sigpipe c = true -> c_verify_first c = false ->
+  alive (serve c hostile_oracle (boot c) [hostile_session]) = false.
+Proof. destruct c as [i v x f]. cbn [c_verify_first c_ignores_sigpipe]. intros -> ->. destruct x, f as [[|]|]; vm_compute; reflexivity. Qed.
 
 (* and the SIGPIPE disposition matters: with the default disposition an abandoned session kills the daemon *)
 Definition benign_oracle : vm_oracle :=
-  {| o_deser := fun _ => false; o_verify := fun _ => None; o_run := fun _ => Ran [] None |}.
+  {| o_deser := fun _ => false; o_verify := fun _ => None; o_run := fun _ => Ran [] None 0 false |}.
 Lemma benign_oracle_total : oracle_total benign_oracle.
 Proof. intros b ch. discriminate. Qed.
 Lemma sigpipe_default_kills c : c_ignores_sigpipe c = false ->
-  alive (serve c benign_oracle d0 [(encode_frame (fr VMD_MSG_PING []), Some O)]) = false.
-Proof. destruct c as [i v]. cbn [c_ignores_sigpipe]. intros ->. destruct v; vm_compute; reflexivity. Qed.
+  alive (serve c benign_oracle (boot c) [(encode_frame (fr VMD_MSG_PING []), Some O)]) = false.
+Proof. destruct c as [i v x f]. cbn [c_ignores_sigpipe]. intros ->. destruct v, x, f as [[|]|]; vm_compute; reflexivity. Qed.
+
+(* ... and it is state: a session whose program used the FFI co-process, in a daemon where such a session leaves the disposition
+   at something else than SIG_IGN, followed by a client that hangs up while its program prints, kills a daemon that had started
+   with SIGPIPE ignored.  Both programs are accepted, verified and harmless. *)
+Definition ffi_oracle : vm_oracle :=
+  {| o_deser := fun _ => true; o_verify := fun _ => None;
+     o_run := fun b => match b with [1] => Ran [[52; 50; 10]] None 0 true | _ => Ran [[99; 10]; [99; 10]; [99; 10]] None 0 false end |}.
+Lemma ffi_oracle_total : oracle_total ffi_oracle.
+Proof.
+  intros b ch. unfold ffi_oracle; cbn.
+  repeat (match goal with |- context [match ?x with _ => _ end] => destruct x end); discriminate.
+Qed.
+Definition ffi_then_abandon : list session := [(load_exec_request [1], None); (load_exec_request [2], Some 2%nat)].
+
+Lemma ffi_reset_kills c : c_ignores_sigpipe c = true -> c_ffi_sets c = Some false ->
+  alive (serve c ffi_oracle (boot c) ffi_then_abandon) = false /\
+  alive (serve c ffi_oracle (boot c) (rev ffi_then_abandon)) = true /\
+  alive (serve c ffi_oracle (boot c) [(load_exec_request [2], Some 2%nat)]) = true.
+Proof. destruct c as [i v x f]. cbn [c_ignores_sigpipe c_ffi_sets]. intros -> ->. destruct v, x; vm_compute; repeat split; reflexivity. Qed.
+
+(* ---- the SIGPIPE-setting calls of the sources (NV.gen.SigpipeSites) ---- *)
+(* calls a session can reach, outside a forked child *)
+Definition session_site (s : sigsite) : bool := ss_session s && negb (ss_child s).
+(* every one of them installs SIG_IGN *)
+Definition sigpipe_sites_ok : bool := forallb (fun s => negb (session_site s) || (ss_value s =? 1)%N) sigpipe_sites.
+(* the daemon's start-up installs SIG_IGN somewhere *)
+Definition sigpipe_startup_ignores : bool := existsb (fun s => ss_startup s && negb (ss_child s) && (ss_value s =? 1)%N) sigpipe_sites.
+Definition ffi_sets_of (sites : list sigsite) : option bool :=
+  if existsb (fun s => session_site s && negb (ss_value s =? 1)%N) sites then Some false
+  else if existsb session_site sites then Some true else None.
+
+Lemma sites_ok_keeps : sigpipe_sites_ok = true -> ffi_sets_of sigpipe_sites <> Some false.
+Proof.
+  unfold sigpipe_sites_ok, ffi_sets_of. intros H.
+  destruct (existsb (fun s => session_site s && negb (ss_value s =? 1)%N) sigpipe_sites) eqn:E.
+  - exfalso. apply existsb_exists in E. destruct E as (s & Hin & Hs). rewrite forallb_forall in H. specialize (H s Hin).
+    apply andb_true_iff in Hs. destruct Hs as (A & B). rewrite A in H. cbn in H. rewrite H in B. discriminate.
+  - destruct (existsb session_site sigpipe_sites); discriminate.
+Qed.
 
 (* the daemon as it is built today *)
-Definition real_cfg : cfg := {| c_ignores_sigpipe := vmd_ignores_sigpipe; c_verify_first := verify_before_execute |}.
+Definition real_cfg : cfg :=
+  {| c_ignores_sigpipe := vmd_ignores_sigpipe; c_verify_first := verify_before_execute;
+     c_exit_from_main := vmd_exit_from_main; c_ffi_sets := ffi_sets_of sigpipe_sites |}.
 
 Lemma daemon_survives_current :
   vmd_ignores_sigpipe = true ->
-  (verify_before_execute = true ->
-     forall O ss, oracle_safe O -> alive (serve real_cfg O d0 ss) = true /\ active (serve real_cfg O d0 ss) = 0%Z) /\
-  (verify_before_execute = false ->
-     (exists O ss, oracle_safe O /\ alive (serve real_cfg O d0 ss) = false) /\
-     (forall O ss, oracle_total O -> alive (serve real_cfg O d0 ss) = true /\ active (serve real_cfg O d0 ss) = 0%Z)).
+  (sigpipe_sites_ok = true ->
+     (verify_before_execute = true ->
+        forall O ss, oracle_safe O ->
+          alive (serve real_cfg O (boot real_cfg) ss) = true /\ active (serve real_cfg O (boot real_cfg) ss) = 0%Z /\
+          sigign (serve real_cfg O (boot real_cfg) ss) = true) /\
+     (verify_before_execute = false ->
+        (exists O ss, oracle_safe O /\ alive (serve real_cfg O (boot real_cfg) ss) = false) /\
+        (forall O ss, oracle_total O ->
+          alive (serve real_cfg O (boot real_cfg) ss) = true /\ active (serve real_cfg O (boot real_cfg) ss) = 0%Z /\
+          sigign (serve real_cfg O (boot real_cfg) ss) = true))) /\
+  (ffi_sets_of sigpipe_sites = Some false ->
+     exists O ss, oracle_total O /\ alive (serve real_cfg O (boot real_cfg) ss) = false).
 Proof.
   intros Hs. split.
-  - intros Hv O ss S. apply daemon_survives_generic; auto.
-  - intros Hv. split.
-    + exists hostile_oracle, [hostile_session]. split; [apply hostile_oracle_safe|].
-      apply unverified_daemon_dies. exact Hv.
-    + intros O ss T. apply daemon_survives_benign; auto.
+  - intros Hok. pose proof (sites_ok_keeps Hok) as Hk. split.
+    + intros Hv O ss S. apply daemon_survives_generic; auto.
+    + intros Hv. split.
+      * exists hostile_oracle, [hostile_session]. split; [apply hostile_oracle_safe|].
+        apply unverified_daemon_dies; [exact Hs|exact Hv].
+      * intros O ss T. apply daemon_survives_benign; auto.
+  - intros Hf. exists ffi_oracle, ffi_then_abandon. split; [apply ffi_oracle_total|].
+    apply (ffi_reset_kills real_cfg); [exact Hs|exact Hf].
 Qed.
 
 (* every session ends: with the reply a prefix of a well-formed frame sequence (the whole sequence when the client keeps
@@ -499,7 +563,7 @@ Lemma session_ends c O input wb d : alive d = true ->
   exists sent d', client_thread c O input wb d = (sent, d') /\
     prefix sent (concat (map encode_frame (reply_frames c O input d))) /\
     (wb = None -> sent = concat (map encode_frame (reply_frames c O input d))) /\
-    (header_refused input -> sent = [] /\ alive d' = true) /\
+    (header_refused input -> sent = [] /\ alive d' = true /\ sigign d' = sigign d) /\
     (alive d' = true -> active d' = active d).
 Proof.
   intros Ha. destruct (client_thread c O input wb d) as [sent d'] eqn:E. exists sent, d'.
@@ -511,18 +575,19 @@ Proof.
   - intros HR. rewrite (closed_iff_header_refused c O input d HR) in P. destruct P as (t & Pt).
     cbn [map concat] in Pt. symmetry in Pt. apply app_eq_nil in Pt. split; [tauto|].
     revert E. unfold client_thread. rewrite Ha. cbn [negb].
-    destruct (recv_header input) as [| | |h rest] eqn:RH; try (intros E; inversion E; reflexivity).
+    destruct (recv_header input) as [| | |h rest] eqn:RH; try (intros E; inversion E; split; reflexivity).
     exfalso. exact (HR h rest RH).
   - intros A'. pose proof (client_thread_cleanup c O input wb d Ha) as C. rewrite E in C. apply C. exact A'.
 Qed.
 
 (* ------------------------------------------------------------------ replies do not depend on the daemon's history *)
 Lemma reply_independent c O input wb d1 d2 :
-  alive d1 = true -> alive d2 = true ->
+  alive d1 = true -> alive d2 = true -> sigign d1 = sigign d2 ->
   (forall h rest, recv_header input = ROk h rest -> h_type h <> VMD_MSG_STATUS) ->
   fst (client_thread c O input wb d1) = fst (client_thread c O input wb d2).
 Proof.
-  intros A1 A2 NS. unfold client_thread. rewrite A1, A2. cbn [negb].
+  intros A1 A2 SG NS. unfold client_thread. rewrite A1, A2. cbn [negb].
+  assert (EN : now c d1 = now c d2) by (unfold now; rewrite SG; reflexivity). rewrite EN.
   destruct (recv_header input) as [| | |h rest] eqn:E; try reflexivity.
   specialize (NS h rest eq_refl).
   destruct (h_type h =? VMD_MSG_PING); [reflexivity|].
@@ -532,12 +597,13 @@ Proof.
 Qed.
 
 Lemma later_clients_ok c O bad input wb :
-  c_ignores_sigpipe c = true -> exec_guard c O ->
+  c_ignores_sigpipe c = true -> keeps_sigign c -> exec_guard c O ->
   (forall h rest, recv_header input = ROk h rest -> h_type h <> VMD_MSG_STATUS) ->
-  fst (client_thread c O input wb (serve c O d0 bad)) = fst (client_thread c O input wb d0).
+  fst (client_thread c O input wb (serve c O (boot c) bad)) = fst (client_thread c O input wb (boot c)).
 Proof.
-  intros Hc G NS. apply reply_independent; [|reflexivity|exact NS].
-  apply (serve_survives c O Hc G bad d0). reflexivity.
+  intros Hc Hk G NS.
+  destruct (serve_survives c O Hk G bad (boot c) eq_refl Hc) as (A & _ & S).
+  apply reply_independent; [exact A|reflexivity|rewrite S; symmetry; exact Hc|exact NS].
 Qed.
 
 (* ------------------------------------------------------------------ transparency of a LOAD_EXEC session *)
@@ -604,19 +670,20 @@ Qed.
 
 Definition wf_run (r : run_result) : Prop :=
   match r with
-  | Ran chunks None => Forall wf_chunk chunks
-  | Ran chunks (Some e) => Forall wf_chunk chunks /\ wf_chunk e /\ e <> []
+  | Ran chunks None _ _ => Forall wf_chunk chunks
+  | Ran chunks (Some e) _ _ => Forall wf_chunk chunks /\ wf_chunk e /\ e <> []
   | Crashed _ => False
   end.
 
-Lemma daemon_transparent c O blob d o :
+Lemma daemon_transparent c sm O blob d o :
   alive d = true ->
   bytes_ok blob -> blob <> [] -> N.of_nat (length blob) <= VMD_MAX_PAYLOAD ->
   wf_run (o_run O blob) ->
-  standalone_observe O blob = Some o ->
+  c_exit_from_main c = sm ->
+  standalone_observe sm O blob = Some o ->
   client_observe (fst (client_thread c O (load_exec_request blob) None d)) = o.
 Proof.
-  intros Ha Hb Hne Hl Hr Hs.
+  intros Ha Hb Hne Hl Hr Hsm Hs.
   rewrite reply_is_frames by exact Ha.
   unfold reply_frames, load_exec_request.
   destruct msg_types_distinct as (_ & _ & _ & _ & _ & _ & T1 & T2 & T3 & T4).
@@ -633,7 +700,7 @@ Proof.
   destruct (o_verify O blob) as [m|] eqn:V; [discriminate|].
   replace (if c_verify_first c then None else None) with (@None (list byte)) by (destruct (c_verify_first c); reflexivity).
   unfold client_observe.
-  destruct (o_run O blob) as [chunks [e|]|chunks]; cbn [wf_run] in Hr.
+  destruct (o_run O blob) as [chunks [e|] st ffi|chunks]; cbn [wf_run] in Hr.
   - destruct Hr as (Hc & He & Hen). inversion Hs; subst o.
     rewrite concat_map_app. cbn [map concat]. rewrite app_nil_r.
     set (body := concat (map encode_frame (output_frames chunks))).
@@ -651,10 +718,12 @@ Proof.
     rewrite client_loop_error by assumption.
     rewrite <- (app_nil_r (encode_frame (exit_frame 1))), client_loop_exit by (vm_compute; reflexivity).
     cbn [app]. reflexivity.
-  - inversion Hs; subst o.
+  - inversion Hs; subst o. rewrite Hsm.
+    set (code := if sm then st mod 256 else 0).
+    assert (CL : code < 256) by (unfold code; destruct sm; [apply N.mod_lt; discriminate|reflexivity]).
     rewrite concat_map_app. cbn [map concat]. rewrite app_nil_r.
     set (body := concat (map encode_frame (output_frames chunks))).
-    set (tail := encode_frame (exit_frame 0)).
+    set (tail := encode_frame (exit_frame code)).
     pose proof (frames_length_le (output_frames chunks)) as LL. fold body in LL.
     assert (TL : (8 <= length tail)%nat) by apply encode_frame_length.
     replace (S (length (body ++ tail))) with (length (output_frames chunks) + (S (length (body ++ tail)) - length (output_frames chunks)))%nat
@@ -663,8 +732,9 @@ Proof.
     remember (S (length (body ++ tail)) - length (output_frames chunks))%nat as k eqn:Ek.
     assert (K2 : (1 <= k)%nat) by (rewrite Ek, app_length; lia).
     destruct k as [|k]; try lia. unfold tail.
-    rewrite <- (app_nil_r (encode_frame (exit_frame 0))), client_loop_exit by (vm_compute; reflexivity).
-    cbn [app]. reflexivity.
+    rewrite <- (app_nil_r (encode_frame (exit_frame code))), client_loop_exit by lia.
+    destruct (N.leb_spec 2147483648 code); [lia|].
+    rewrite (N.mod_small code 256) by exact CL. cbn [app]. reflexivity.
   - contradiction.
 Qed.
 
@@ -697,17 +767,17 @@ Definition msg_types_ok : bool :=
 (* ------------------------------------------------------------------ transparency fails for modules the verifier refuses *)
 (* standalone refuses this module; a handler that does not verify runs it *)
 Definition sloppy_oracle : vm_oracle :=
-  {| o_deser := fun _ => true; o_verify := fun _ => Some [114]; o_run := fun _ => Ran [[104; 105; 10]] None |}.
+  {| o_deser := fun _ => true; o_verify := fun _ => Some [114]; o_run := fun _ => Ran [[104; 105; 10]] None 0 false |}.
 
-Lemma unverified_module_runs c : c_verify_first c = false ->
-  standalone_observe sloppy_oracle [0] = None /\
-  client_observe (fst (client_thread c sloppy_oracle (load_exec_request [0]) None d0)) =
+Lemma unverified_module_runs c sm : c_verify_first c = false ->
+  standalone_observe sm sloppy_oracle [0] = None /\
+  client_observe (fst (client_thread c sloppy_oracle (load_exec_request [0]) None (boot c))) =
     {| o_stdout := [104; 105; 10]; o_stderr := []; o_exit := 0 |}.
-Proof. destruct c as [i v]. cbn [c_verify_first]. intros ->. destruct i; vm_compute; split; reflexivity. Qed.
+Proof. destruct c as [i v x f]. cbn [c_verify_first]. intros ->. destruct i, x, f as [[|]|], sm; vm_compute; split; reflexivity. Qed.
 
 Lemma verified_module_refused c msg : c_verify_first c = true ->
   client_observe (fst (client_thread c {| o_deser := fun _ => true; o_verify := fun _ => Some msg; o_run := fun _ => Crashed [] |}
-                                      (load_exec_request [0]) None d0)) =
+                                      (load_exec_request [0]) None (boot c))) =
   client_observe (encode_frame (error_frame (txt_verify_failed ++ msg)) ++ encode_frame (exit_frame 1)).
 Proof.
   intros Hv. rewrite reply_is_frames by reflexivity. unfold reply_frames, load_exec_request.
@@ -719,4 +789,30 @@ Proof.
   replace ((1 =? 0) || (VMD_MAX_PAYLOAD <? 1)) with false by (vm_compute; reflexivity).
   change 1 with (N.of_nat (length [0])) at 1. rewrite take_app. cbn [o_deser negb o_verify]. rewrite Hv.
   cbn [map concat]. rewrite app_nil_r. reflexivity.
+Qed.
+
+(* ------------------------------------------------------------------ the exit status of a program that ends normally *)
+(* main returns 3: standalone exits 3; a handler that always sends EXIT_CODE 0 makes the client exit 0 *)
+Definition status_oracle : vm_oracle :=
+  {| o_deser := fun _ => true; o_verify := fun _ => None; o_run := fun _ => Ran [[104; 105; 10]] None 3 false |}.
+Lemma exit_status_dropped c : c_exit_from_main c = false ->
+  standalone_observe true status_oracle [0] = Some {| o_stdout := [104; 105; 10]; o_stderr := []; o_exit := 3 |} /\
+  client_observe (fst (client_thread c status_oracle (load_exec_request [0]) None (boot c))) =
+    {| o_stdout := [104; 105; 10]; o_stderr := []; o_exit := 0 |}.
+Proof. destruct c as [i v x f]. cbn [c_exit_from_main]. intros ->. destruct i, v, f as [[|]|]; vm_compute; split; reflexivity. Qed.
+
+(* transparency for the daemon of today, keyed on the generated facts *)
+Lemma daemon_transparent_current :
+  (vmd_exit_from_main = standalone_exit_from_main ->
+     forall O blob d o, alive d = true -> bytes_ok blob -> blob <> [] -> N.of_nat (length blob) <= VMD_MAX_PAYLOAD ->
+       wf_run (o_run O blob) -> standalone_observe standalone_exit_from_main O blob = Some o ->
+       client_observe (fst (client_thread real_cfg O (load_exec_request blob) None d)) = o) /\
+  (vmd_exit_from_main = false -> standalone_exit_from_main = true ->
+     exists O blob o, standalone_observe standalone_exit_from_main O blob = Some o /\
+       client_observe (fst (client_thread real_cfg O (load_exec_request blob) None (boot real_cfg))) <> o).
+Proof.
+  split.
+  - intros E O blob d o Ha Hb Hne Hl Hr Hs. apply (daemon_transparent real_cfg standalone_exit_from_main O blob d o); auto.
+  - intros E1 E2. exists status_oracle, [0], {| o_stdout := [104; 105; 10]; o_stderr := []; o_exit := 3 |}.
+    destruct (exit_status_dropped real_cfg E1) as (A & B). rewrite E2. split; [exact A|]. rewrite B. discriminate.
 Qed.
